@@ -152,9 +152,8 @@ class Ctx:
     def extract(self, items):
         """regenerate lean/GoldModel/Gen/*.lean from /repo/src; `items` = the E-items this
         property consumes (each becomes an obligation)."""
-        from . import extract
-        with Lock("lake"):
-            res = extract.run_all(REPO, os.path.join(LEAN, "GoldModel", "Gen"))
+        self.ensure_generated()
+        res = self._extract_result
         for it in items:
             ok, detail = res.get(it, (False, "unknown item"))
             self.oblige("tie:extract:" + it, ok, detail)
@@ -162,8 +161,19 @@ class Ctx:
         return all(res.get(it, (False,))[0] for it in items)
 
     # ----- theorems ------------------------------------------------------------------
+    def ensure_generated(self):
+        """registries and generated tables exist and are current (they are not tracked in git)"""
+        if getattr(self, "_generated", False):
+            return
+        from . import genreg, extract
+        with Lock("lake"):
+            genreg.main()
+            self._extract_result = extract.run_all(REPO, os.path.join(LEAN, "GoldModel", "Gen"))
+        self._generated = True
+
     def lake_build(self, targets):
         from . import genreg
+        self.ensure_generated()
         with Lock("lake"):
             genreg.main()
             cmd = ["lake", "build"] + targets
@@ -248,6 +258,7 @@ class Ctx:
     # ----- tie 2: harness / driver -----------------------------------------------------
     def build_harness(self):
         from . import genreg
+        self.ensure_generated()
         with Lock("cargo-harness"):
             genreg.main()
             link = os.path.join(HARNESS_DIR, "reposrc")
